@@ -286,6 +286,78 @@ def rk_coding(ctx):
                                      ("gene.cds:CDSInterval.incorporate_variants", "frames of the new CDS continue the original reading frame")])
 
 
+def rm_haplotype_mapping(ctx):
+    """AnnotationCollection.alternative_haplotype_mapping: every (gene / feature collection, variant collection) pair whose
+    spans overlap appears under the variant collection's guid with the variants incorporated, nothing else does - on the
+    pure-Python branch and on the optional interval-index branch (cgranges; not installed here, followed through the
+    analyser's native model), which must agree"""
+    from ..genekernel import mk_collection, mk_feature_collection, mk_gene
+    from ..interp import with_cgranges
+    r, repo = ctx.r, ctx.repo
+    q = "gene.collections:AnnotationCollection._associate_intervals_with_variant_intervals"
+    fn = repo.fn(q)
+    members = [("g1", [(4, 9), (12, 20)], "PLUS"), ("g2", [(22, 30)], "MINUS"), ("g3", [(31, 36)], "PLUS")]
+    vcs = [("v1", [(10, 11, "T")]), ("v2", [(14, 15, "G"), (24, 25, "C")]), ("v3", [(36, 37, "A")]), ("v4", [(1, 2, "C")])]
+    answers = {}
+    n = 0
+    for path in ("pure", "index"):
+        it = gene_interp(repo, max_steps=10 ** 10)
+        if path == "index":
+            with_cgranges(it)
+        S = strands(it)
+        parent = chrom_parent(it, REF, alphabet="NT_STRICT_UNKNOWN")
+        genes = [mk_gene(it, [mk_transcript(it, ex, S[sn], transcript_id=gid + ".t", parent_or_seq_chunk_parent=parent)], gene_id=gid,
+                         parent_or_seq_chunk_parent=parent) for gid, ex, sn in members[:2]]
+        fcs = [mk_feature_collection(it, [mk_feature(it, members[2][1], S[members[2][2]], feature_name="f", parent_or_seq_chunk_parent=parent)],
+                                     feature_collection_id=members[2][0], parent_or_seq_chunk_parent=parent)]
+        vobjs = []
+        for vid, vs in vcs:
+            vi = [mk_variant(it, s_, e, alt, parent, name=f"{vid}.{i}") for i, (s_, e, alt) in enumerate(vs)]
+            vobjs.append(it.apply(ClassTok("VariantIntervalCollection"), [vi], {"variant_collection_id": vid, "parent_or_seq_chunk_parent": parent}, None, 0))
+        try:
+            ac = mk_collection(it, genes, fcs, variant_collections=vobjs, sequence_name="chr1", parent_or_seq_chunk_parent=parent)
+        except Raised as ex:
+            r.violation("C13.RM", q, f"{path} path", f"building a collection with variant collections raises {ex.exc_name} on the {path} path", fn)
+            continue
+        except Uninterpretable as ex:
+            from ..model import AnalysisError
+            raise AnalysisError(f"C13.RM ({path} path): {ex}")
+        mapping = ac.fields.get("alternative_haplotype_mapping") or {}
+        got = {}
+        by_guid = {str(v.fields["guid"]): vid for v, (vid, _vs) in zip(vobjs, vcs)}
+        for guid, lst in mapping.items():
+            vid = by_guid.get(str(guid), str(guid))
+            for o in lst:
+                oid = o.fields.get("gene_id") or o.fields.get("feature_collection_id")
+                kids = o.fields.get("transcripts") or o.fields.get("feature_intervals")
+                k, sv = run(it, repo.fn("gene.interval:AbstractFeatureInterval.get_spliced_sequence"), [], {}, kids[0])
+                got[(vid, oid)] = sv.fields["sequence"] if k == "ok" else f"raise:{sv}"
+        answers[path] = got
+        want = {}
+        for vid, vs in vcs:
+            lo, hi = min(v[0] for v in vs), max(v[1] for v in vs)
+            for gid, ex, sn in members:
+                if ex[0][0] < hi and lo < ex[-1][1]:
+                    parts = [edited_block(REF, s_, e, vs) for s_, e in ex]
+                    if any(p_ is None for p_ in parts):
+                        continue
+                    plus = "".join(parts)
+                    want[(vid, gid)] = plus if sn == "PLUS" else rc(plus)
+        n += 1
+        missing = sorted(set(want) - set(got))
+        extra = sorted(k_ for k_ in set(got) - set(want))
+        r.check(not missing and not extra, "C13.RM", q, f"pairs associated ({path} path)",
+                f"{path} path: associated (variant collection, member) pairs {sorted(got)}; spans that overlap give {sorted(want)}", fn)
+        for k_ in sorted(set(want) & set(got)):
+            n += 1
+            r.check(got[k_] == want[k_], "C13.RM", q, f"haplotype sequence {k_} ({path} path)",
+                    f"{path} path: member {k_[1]} under {k_[0]} has spliced sequence {got[k_]!r}; reference with the edits applied is {want[k_]!r}", fn)
+    if len(answers) == 2:
+        r.check(answers["pure"] == answers["index"], "C13.RM", q, "pure-Python branch = interval-index branch",
+                f"the two branches associate differently: {answers['pure']} vs {answers['index']}", fn)
+    r.count(n)
+
+
 def r3_round_trip(ctx):
     r, repo = ctx.r, ctx.repo
     it = gene_interp(repo, max_steps=10 ** 10)
@@ -370,6 +442,7 @@ RULES = [
     ("C13.RK", rk_sequences),
     ("C13.RL", rk_lift),
     ("C13.RC", rk_coding),
+    ("C13.RM", rm_haplotype_mapping),
     ("C13.R3", r3_round_trip),
     ("C13.R4", r4_groupby_sorted),
 ]
